@@ -74,7 +74,7 @@ class ActionDiagnostic final : public CoreStepActionInterface,
     // Description of the action for user interaction
     std::string_view description() const final;
     //! Dependency ordering of the action
-    StepActionOrder order() const final { return StepActionOrder::post; }
+    StepActionOrder order() const final { return StepActionOrder::user_post; }
     //!@}
 
     //!@{
